@@ -262,6 +262,9 @@ func TestMain(m *testing.M) {
 	if c10Worker != nil {
 		c10Worker.Close()
 	}
+	if pyWorker != nil {
+		pyWorker.Close()
+	}
 	os.Exit(code)
 }
 
